@@ -28,6 +28,23 @@ theorem generated_usage (bat : List Nat) :
 theorem never_reserved (bat : List Nat) (k : Nat) : ∀ b ∈ chosen bat k, isFree (bat.getD b 0) = true ∧ isReserved (bat.getD b 0) = false :=
   fun b hb => ⟨(chosen_free bat k b hb).2, chosen_never_reserved bat k b hb⟩
 
+/-- **C05 (the table and the catalog are never handed to a file — also on a side that was never
+    formatted)**: `writeFile` chooses the blocks of a new file in `protect bat`, the table it read with
+    the two blocks of track 20 marked reserved whatever it said about them: whatever the table holds
+    (a blank side reads as 160 free blocks), blocks 40 and 41 are not among the chosen ones -/
+theorem track20_never_handed_out (bat : List Nat) (hlen : bat.length = 160) (k : Nat) :
+    ∀ b ∈ chosen (protect bat) k, b ≠ 40 ∧ b ≠ 41 := by
+  intro b hb
+  obtain ⟨h40, h41⟩ := protect_track20 bat (by omega)
+  have hf := (chosen_free (protect bat) k b hb).2
+  constructor
+  · intro e; subst e; rw [h40] at hf; cases hf
+  · intro e; subst e; rw [h41] at hf; cases hf
+
+/-- on a table that already reserves track 20 — every formatted side — `protect` changes nothing -/
+theorem protect_formatted (bat : List Nat) (h40 : bat.getD 40 0 = 0xFE) (h41 : bat.getD 41 0 = 0xFE) : protect bat = bat :=
+  protect_id bat (by rw [h40]; rfl) (by rw [h41]; rfl)
+
 theorem reserved_blocks_of_the_tool : 40 ∈ Gen.Disk.reservedBlocks ∧ 41 ∈ Gen.Disk.reservedBlocks := by decide
 
 /-- **C05 (refused for lack of blocks ⇒ nothing changes)**: when `writeFile` refuses a file
@@ -61,11 +78,13 @@ theorem refused_blocks_unchanged (sd sd' : Side) (content : Bytes) (name ext : S
 
 /-- a file is refused for lack of blocks exactly when fewer free blocks remain than it needs -/
 theorem refused_when_too_few_blocks (sd : Side) (bat : List Nat) (content : Bytes) (name ext : Str) (kind flag : Nat)
-    (hb : getBat sd = .ok bat)
+    (hb : getBat sd = .ok bat) (h40 : isFree (bat.getD 40 0) = false) (h41 : isFree (bat.getD 41 0) = false)
     (h : (chosen bat (reqBlocks content.length)).length < reqBlocks content.length) :
     writeFile sd content name ext kind flag = .raised (.valueError "not.enough.blocks") sd := by
   unfold writeFile
   rw [hb]
+  dsimp only
+  rw [protect_id bat h40 h41]
   simp only [writeFileWith, h, if_true]
 
 /-- the written chain reads back: the statuses `writeFile` links are followed by `walk` exactly -/
@@ -105,6 +124,8 @@ theorem refused_catalog_restores (sd sd' : Side) (bat : List Nat) (content : Byt
   have hblen := getBat_length sd bat hb
   unfold writeFile at h
   rw [hb] at h
+  dsimp only at h
+  rw [protect_id bat h40 h41] at h
   simp only [writeFileWith] at h
   split at h
   · simp only [WriteResult.raised.injEq, PyErr.valueError.injEq] at h
